@@ -35,7 +35,8 @@ CHECKS = {
             "types/structure.py:StructureMetaType._read",
         ],
         "required_cells": ["compiled:True", "fallback", "align:True", "align:False", "endian:<", "endian:>",
-                           "explicit-offsets", "mixed-modes", "deep-folded-length-source", "special:nocompile-flag"],
+                           "explicit-offsets", "mixed-modes", "deep-folded-length-source", "special:nocompile-flag",
+                           "special:char-only-blocks-at-every-cut", "special:dereference-with-odd-pointer-types"],
         "assumptions": ASSUME_COMMON,
     },
 }
@@ -52,7 +53,7 @@ CHECKS["C02"] = {
                        "bitbuffer.py:BitBuffer.flush", "types/base.py:MetaType._write_0",
                        "types/char.py:CharArray._write", "<compiled>"],
     "required_cells": ["pinned-witnesses", "align:True", "align:False", "endian:<", "endian:>", "feat:bits", "feat:arr:null",
-                       "bit-field-units-placed-at-run-time"],
+                       "bit-field-units-placed-at-run-time", "long-array:fixed", "long-array:counted", "long-array:rows"],
     "assumptions": ASSUME_COMMON,
 }
 
@@ -132,7 +133,7 @@ CHECKS["C07"] = {
                        "types/enum.py:EnumMetaType._read_0", "types/structure.py:StructureMetaType._read_0",
                        "cstruct.py:cstruct._make_array", "<compiled>"],
     "required_cells": ['packedxexprenum:interpreted', 'widexexprenum:interpreted', 'floatxexprenum:interpreted', 'charxexprenum:interpreted', 'wcharxexprenum:interpreted', 'enumxexprenum:interpreted', 'flagxexprenum:interpreted', 'lebxexprenum:interpreted', 'structxexprenum:interpreted', 'intstructxexprenum:interpreted', 'dynstructxexprenum:interpreted', 'arrayxexprenum:interpreted', 'chararrayxexprenum:interpreted', 'ptrxexprenum:interpreted', 'packedxfixed0:interpreted', 'packedxfixed1:interpreted', 'packedxfixedk:interpreted', 'packedxexpr:interpreted', 'packedxexprneg:interpreted', 'packedxexprconst:interpreted', 'packedxexprsizeof:interpreted', 'packedxnull:interpreted', 'packedxeof:interpreted', 'widexfixed0:interpreted', 'widexfixed1:interpreted', 'widexfixedk:interpreted', 'widexexpr:interpreted', 'widexexprneg:interpreted', 'widexexprconst:interpreted', 'widexexprsizeof:interpreted', 'widexnull:interpreted', 'widexeof:interpreted', 'floatxfixed0:interpreted', 'floatxfixed1:interpreted', 'floatxfixedk:interpreted', 'floatxexpr:interpreted', 'floatxexprneg:interpreted', 'floatxexprconst:interpreted', 'floatxexprsizeof:interpreted', 'floatxeof:interpreted', 'charxfixed0:interpreted', 'charxfixed1:interpreted', 'charxfixedk:interpreted', 'charxexpr:interpreted', 'charxexprneg:interpreted', 'charxexprconst:interpreted', 'charxexprsizeof:interpreted', 'charxnull:interpreted', 'charxeof:interpreted', 'wcharxfixed0:interpreted', 'wcharxfixed1:interpreted', 'wcharxfixedk:interpreted', 'wcharxexpr:interpreted', 'wcharxexprneg:interpreted', 'wcharxexprconst:interpreted', 'wcharxexprsizeof:interpreted', 'wcharxnull:interpreted', 'wcharxeof:interpreted', 'enumxfixed0:interpreted', 'enumxfixed1:interpreted', 'enumxfixedk:interpreted', 'enumxexpr:interpreted', 'enumxexprneg:interpreted', 'enumxexprconst:interpreted', 'enumxexprsizeof:interpreted', 'enumxnull:interpreted', 'enumxeof:interpreted', 'flagxfixed0:interpreted', 'flagxfixed1:interpreted', 'flagxfixedk:interpreted', 'flagxexpr:interpreted', 'flagxexprneg:interpreted', 'flagxexprconst:interpreted', 'flagxexprsizeof:interpreted', 'flagxnull:interpreted', 'flagxeof:interpreted', 'lebxfixed0:interpreted', 'lebxfixed1:interpreted', 'lebxfixedk:interpreted', 'lebxexpr:interpreted', 'lebxexprneg:interpreted', 'lebxexprconst:interpreted', 'lebxexprsizeof:interpreted', 'lebxnull:interpreted', 'lebxeof:interpreted', 'structxfixed0:interpreted', 'structxfixed1:interpreted', 'structxfixedk:interpreted', 'structxexpr:interpreted', 'structxexprneg:interpreted', 'structxexprconst:interpreted', 'structxexprsizeof:interpreted', 'structxeof:interpreted', 'intstructxfixed0:interpreted', 'intstructxfixed1:interpreted', 'intstructxfixedk:interpreted', 'intstructxexpr:interpreted', 'intstructxexprneg:interpreted', 'intstructxexprconst:interpreted', 'intstructxexprsizeof:interpreted', 'intstructxnull:interpreted', 'intstructxeof:interpreted', 'dynstructxfixed0:interpreted', 'dynstructxfixed1:interpreted', 'dynstructxfixedk:interpreted', 'dynstructxexpr:interpreted', 'dynstructxexprneg:interpreted', 'dynstructxexprconst:interpreted', 'dynstructxexprsizeof:interpreted', 'dynstructxeof:interpreted', 'arrayxfixed0:interpreted', 'arrayxfixed1:interpreted', 'arrayxfixedk:interpreted', 'arrayxexpr:interpreted', 'arrayxexprneg:interpreted', 'arrayxexprconst:interpreted', 'arrayxexprsizeof:interpreted', 'arrayxeof:interpreted', 'chararrayxfixed0:interpreted', 'chararrayxfixed1:interpreted', 'chararrayxfixedk:interpreted', 'chararrayxexpr:interpreted', 'chararrayxexprneg:interpreted', 'chararrayxexprconst:interpreted', 'chararrayxexprsizeof:interpreted', 'chararrayxeof:interpreted', 'ptrxfixed0:interpreted', 'ptrxfixed1:interpreted', 'ptrxfixedk:interpreted', 'ptrxexpr:interpreted', 'ptrxexprneg:interpreted', 'ptrxexprconst:interpreted', 'ptrxexprsizeof:interpreted', 'ptrxeof:interpreted', 'exprarrayxfixed0:interpreted', 'exprarrayxfixed1:interpreted', 'exprarrayxfixedk:interpreted', 'exprarrayxexpr:interpreted', 'exprarrayxexprneg:interpreted', 'exprarrayxexprconst:interpreted', 'exprarrayxexprsizeof:interpreted', 'exprarrayxexprenum:interpreted', 'exprarrayxeof:interpreted'] + ["direct-use", "shadowing", "folded-length-source", "long:charxnull", "long:wcharxnull",
-                                                             "long:packedxexpr", "long:lebxnull", "array-count-is-an-enum-member"],
+                                                             "long:packedxexpr", "long:lebxnull", "array-count-is-an-enum-member", "terminator-reappended"],
     "assumptions": ASSUME_COMMON,
 }
 
